@@ -1,6 +1,7 @@
 package rig
 
 import (
+	"strings"
 	"fmt"
 	"math/big"
 	"math/rand"
@@ -96,12 +97,22 @@ abi.payable(default, pay, nested, constructor)
 abi.fee_delegation(fd, fdfail)
 `
 
+// LuaBankV2 / LuaBankV2Fail: code a creator redeploys over LuaBank (private chains). inc counts in hundreds, so
+// that running this code where the old one should run is visible in storage; the second one's constructor fails.
+var LuaBankV2 = strings.Replace(strings.Replace(LuaBank, "(cnt:get() or 0) + 1", "(cnt:get() or 0) + 100", 1), "function constructor() cnt:set(0) end", "function constructor() end", 1)
+var LuaBankV2Fail = strings.Replace(LuaBankV2, "function constructor() end", "function constructor() m[\"rd\"] = 1; error(\"redeploy refused by constructor\") end", 1)
+
 // Next returns the next nonce to use for account i assuming all earlier generated txs of this
 // block are included (pending counts within the block are tracked in p).
 func (g *Gen) next(i int, pend map[int]uint64) uint64 {
 	pend[i]++
 	return g.Nonce[i] + pend[i]
 }
+
+// DefaultKinds is the mix used when Gen.Kinds is empty.
+var DefaultKinds = []string{"xfer", "xfer", "xfer", "xfer-new", "xfer-self", "xfer-zero", "xfer-poor", "xfer-all", "badnonce-low", "badnonce-gap",
+	"stake", "stake-small", "unstake", "votebp", "votebp-nostake", "votedao", "name", "name-dup", "name-update", "xfer-name",
+	"deploy", "call-inc", "call-pay", "call-payfail", "call-fail", "call-guarded", "call-nested", "call-nestfail", "call-default", "feedeleg", "feedeleg-fail", "gov-bad", "setowner"}
 
 // Block generates a candidate list of n transactions for block number no.
 func (g *Gen) Block(no uint64, n int) []*GTx {
@@ -111,9 +122,7 @@ func (g *Gen) Block(no uint64, n int) []*GTx {
 	cid := g.W.CIDHash(no)
 	kinds := g.Kinds
 	if len(kinds) == 0 {
-		kinds = []string{"xfer", "xfer", "xfer", "xfer-new", "xfer-self", "xfer-zero", "xfer-poor", "xfer-all", "badnonce-low", "badnonce-gap",
-			"stake", "stake-small", "unstake", "votebp", "votebp-nostake", "votedao", "name", "name-dup", "name-update", "xfer-name",
-			"deploy", "call-inc", "call-pay", "call-payfail", "call-fail", "call-guarded", "call-nested", "call-nestfail", "call-default", "feedeleg", "feedeleg-fail", "gov-bad", "setowner"}
+		kinds = DefaultKinds
 	}
 	blocked := map[int]bool{}
 	tries := 0
@@ -302,6 +311,32 @@ func (g *Gen) Block(no uint64, n int) []*GTx {
 			tx := sp.Build()
 			out = append(out, &GTx{Desc: desc, Kind: k, From: i, Expect: exp, Tx: tx})
 			continue
+		case "redeploy", "redeploy-fail":
+			// only the creator may replace the code; only non-public chains know the tx type
+			if len(g.Contracts) == 0 || ver < 2 {
+				continue
+			}
+			ct := g.Contracts[g.R.Intn(len(g.Contracts))]
+			src := LuaBankV2
+			if k == "redeploy-fail" {
+				src = LuaBankV2Fail
+			}
+			pl, err := DeployPayload(src, nil, ver)
+			if err != nil {
+				continue
+			}
+			i = ct.Owner
+			if blocked[i] {
+				continue
+			}
+			sp.From = g.acct(i)
+			sp.Type, sp.To, sp.Payload, sp.Amount = types.TxType_REDEPLOY, ct.Addr, pl, big.NewInt(0)
+			if g.W.Tmpl.Public {
+				exp = "reject"
+			} else if k == "redeploy-fail" {
+				exp = "fail"
+			}
+			desc = fmt.Sprintf("%s a%d contract %x", k, i, ct.Addr[:4])
 		case "call-inc", "call-pay", "call-payfail", "call-fail", "call-guarded", "call-nested", "call-nestfail", "call-default", "feedeleg", "feedeleg-fail":
 			if len(g.Contracts) == 0 {
 				continue
@@ -363,6 +398,20 @@ func (g *Gen) Block(no uint64, n int) []*GTx {
 		}
 		tx := sp.Build()
 		out = append(out, &GTx{Desc: desc, Kind: k, From: i, Tx: tx, Expect: exp})
+		if k == "redeploy" || k == "redeploy-fail" {
+			// somebody else calls the same contract right afterwards in the same block
+			for tr := 0; tr < 20; tr++ {
+				j := g.pick()
+				if j == i || blocked[j] {
+					continue
+				}
+				cs := TxSpec{From: g.acct(j), ChainID: cid, GasPrice: sp.GasPrice, Type: types.TxType_CALL, To: sp.To, Amount: big.NewInt(0),
+					Payload: []byte(fmt.Sprintf(`{"Name":"inc","Args":["k%d"]}`, g.R.Intn(4)))}
+				cs.Nonce = g.next(j, pend)
+				out = append(out, &GTx{Desc: fmt.Sprintf("call-inc a%d c=%x (after %s)", j, sp.To[:4], k), Kind: "call-inc", From: j, Tx: cs.Build(), Expect: "ok"})
+				break
+			}
+		}
 	}
 	return out
 }
